@@ -15,6 +15,6 @@ for p in "$@"; do
   rc=$?
   nv=$(echo "$out" | grep -c "^VIOLATION")
   echo "$d $p exit=$rc violations=$nv $(echo "$out" | grep '^property=' | tail -1)"
-  echo "$out" | grep "^VIOLATION" | head -4 | cut -c1-330
+  echo "$out" | grep "^VIOLATION\|REPLAY-FAIL" | head -6 | cut -c1-330
 done
 git -C /repo worktree remove --force $wt
